@@ -11,6 +11,7 @@ import (
 	"time"
 
 	"github.com/hashicorp/go-hclog"
+	"github.com/hashicorp/go-plugin/verifhook"
 	"github.com/hashicorp/yamux"
 )
 
@@ -114,6 +115,7 @@ func (m *GRPCServerMuxer) Accept() (net.Conn, error) {
 
 	for {
 		conn, acceptErr := session.Accept()
+		verifhook.Point("grpcmux.server.accepted")
 
 		select {
 		case id := <-m.knockCh:
